@@ -293,7 +293,8 @@ class C19(Prop):
             elif k == 4:
                 parts.append(rng.choice([".safeMode = '0'", ".htmlReplacement = 'x'"]))
             elif k == 5:
-                parts.append(rng.choice([".+macros -spans\n" + plain(rng), ".cls #i%d\n%s" % (rng.randint(1, 9999), plain(rng))]))
+                parts.append(rng.choice([".+macros -spans\n" + plain(rng), ".cls #i%d\n%s" % (rng.randint(1, 9999), plain(rng)),
+                                         "{--} = ''", "{m1?} = 'kept'", ".-specials -container\n..\n%s\n.." % plain(rng)]))
             elif k == 6:
                 parts.append(rng.choice(["|code| = '<pre>|</pre> +macros'", "/teh/ = 'the'", "~ = '<u>|</u>'"]))
             elif k == 7:
@@ -341,8 +342,9 @@ class C19(Prop):
                 parts.insert(rng.randrange(2, len(parts) + 1), "/%s/ = 'x'" % rng.choice(['(', '[a', 'a**', '(?P<n', 'x{2,1}']))
                 expect = 'illegal replacement regular expression'
             elif f == 'block-option':
-                parts.insert(rng.randrange(2, len(parts) + 1), '.+bogus\n' + plain(rng))
-                expect = 'illegal block option: +bogus'
+                bad = rng.choice(['+bogus', '+skipx', '-macross', '+Skip', '-span'])
+                parts.insert(rng.randrange(2, len(parts) + 1), '.%s%s\n%s' % (rng.choice(['', '+macros ']), bad, plain(rng)))
+                expect = 'illegal block option: ' + bad
             else:
                 parts.insert(rng.randrange(2, len(parts) + 1), "|code| = 'junk'")
                 expect = 'illegal delimited block definition'
@@ -398,6 +400,17 @@ class C12(Prop):
         rng = ctx.rng
         while True:
             mode = rng.randrange(16)
+            if rng.random() < 0.12:
+                # correspondence only (no oracle): attributes merged into tags that already have class / style / id
+                # attributes, and combinations of block options - what the property does not spell out, the model does
+                line = rng.choice(['.c1 c2', '."color:red"', '.c1 #i9 "a:b"', '.#i9 [title="t"]', '.c1 "x:y;" -specials +macros',
+                                   '.+skipx', '.-specials +skip', '.-macros -spans c1', '.c1 +container -specials'])
+                target = rng.choice(['<div class="a" title="q">x</div>', '<div style="a:b;" class="k">x</div>', '<p style="a:b">x</p>',
+                                     '<div id="own" class="">x</div>', '<!-- c --><div>x</div>', '<h1 class="t" data-q="a&quot;b">x</h1>',
+                                     '<div\nclass="a">x</div>', '<span>x</span> tail', '..\ninner *b* {mm}\n..', '```\n<b> *c*\n```',
+                                     '""\n- i1\n- i2\n""', '<div class="a">\n<p class="b" style="c:d">x</p>\n</div>'])
+                yield {'merge': True, 'with': "{mm} = 'MM'\n\n" + line + '\n' + target + '\n\nnext *para*', 'safeMode': mode}
+                continue
             classes, pid, css, attrs = [], None, [], []
             skip = False
             lines = []
@@ -464,6 +477,9 @@ class C12(Prop):
     def execute(self, case, ctx, res):
         mode = case['safeMode']
         a, _, ok1 = run_session(ctx, [{'src': case['with'], 'safeMode': mode, 'reset': True, 'callback': True}], res, case)
+        if case.get('merge'):
+            res.count('merge_correspondence_only')
+            return
         without = case['without']
         if case['skip_line'] and not case['skip']:
             # attribute lines are ignored altogether (bit 4): the block is rendered
@@ -683,7 +699,8 @@ class C17(Prop):
     LINE_ELEMENTS = ['# Header', '== Header', '- item', '* item', '. item', '.. item', 'term:: def', '..', '.....', '""', '>>', '``', '--',
                      '// comment', '/*', '.cls', '.#id9 "color:red"', "{m9} = 'v'", "/teh/ = 'the'", "|code| = '+skip'", "~ = 'a|b'",
                      ".safeMode = '1'", ".htmlReplacement = 'zz'", '<image:http://a.b/i.png>', '<image:http://a.b/i.png|alt>', '<<#a1>>',
-                     '>quote paragraph', '{m1} at line start', '<div>']
+                     '>quote paragraph', '{m1} at line start', '<div>', '// t:: d', '# h:: d', '.cls x:: y', '/* t::: d',
+                     "{m9} = 'v' :: d", '.. 1) two', '//', '.. cls', '>> q', '"" cite']
 
     def cases(self, ctx):
         rng = ctx.rng
